@@ -69,6 +69,10 @@ func (tw *tokenWorld) obtain(ch *kernel.Chooser) string {
 		scopes = append(scopes, oidc.ScopeOfflineAccess)
 	}
 	user := ch.Pick("alice", "bob")
+	if tw.prop == "C08" && ch.Bool(1, 8) {
+		user = "carol" // subject with a colon
+		tw.o.Probe("subject-with-colon")
+	}
 	s, err := codeFlow(w, tw.b, flowOpts{client: client, user: user, scopes: scopes})
 	if err != nil {
 		tw.o.Probe("honest-flow-failed")
@@ -585,6 +589,8 @@ func (tw *tokenWorld) revoke(ch *kernel.Chooser) string {
 	}
 	liveBefore := tw.isLive(g, what)
 	wellBeforeExpiry := tw.liveWithMargin(g, what)
+	// an access token the provider does not honour in the first place (see usableAccess) is garbage to it
+	recognised := what == "refresh" || kind != "genuine" || !liveBefore || tw.usableAccess(g)
 	// a manipulated string is garbage only if it no longer designates any token the provider knows
 	garbage := kind != "genuine" && w.Store.RefreshSnapshot(tok) == nil
 	if id, _, _, ok := w.DecodeAccess(tok); ok && w.Store.TokenSnapshot(id) != nil {
@@ -614,11 +620,11 @@ func (tw *tokenWorld) revoke(ch *kernel.Chooser) string {
 	}
 	if authed && kind == "genuine" && p.claimedClient() == g.client && wellBeforeExpiry {
 		// revocation by the owning client makes the token unusable
-		if r.Status == 200 && liveAfter {
-			tw.viol("C08", "revocation-ineffective", "revoke", "%s: answered 200 but the token is still live", desc)
+		if r.Status == 200 && liveAfter && (what == "refresh" || tw.usableAccess(g)) {
+			tw.viol("C08", "revocation-ineffective", "revoke", "%s: answered 200 but the token is still live and honoured", desc)
 		}
 	}
-	if authed && p.claimedClient() != g.client && kind == "genuine" && wellBeforeExpiry {
+	if authed && p.claimedClient() != g.client && kind == "genuine" && wellBeforeExpiry && recognised {
 		tw.o.Probe("foreign-revocation-attempt")
 		if r.Status < 400 {
 			tw.viol("C08", "foreign-revocation", "revoke-status", "%s: revocation by another client was not refused", desc)
@@ -656,6 +662,21 @@ func (tw *tokenWorld) isLive(g *grantedToken, what string) bool {
 	return ok && tw.w.Store.TokenLive(id)
 }
 
+// usableAccess: the access token is live in the storage AND the provider still honours it at userinfo. "Unusable at
+// the endpoints" is what the statement demands of a revocation; a token the provider never honours (it cannot parse
+// its own opaque token when the subject contains a colon) is unusable whatever the storage says.
+func (tw *tokenWorld) usableAccess(g *grantedToken) bool {
+	if !tw.isLive(g, "access") {
+		return false
+	}
+	r := bearerGet(tw.w, "/userinfo", g.access)
+	if r.Err == nil && r.Status == 200 {
+		return true
+	}
+	tw.o.Probe("live-in-storage-but-refused")
+	return false
+}
+
 func (tw *tokenWorld) endSession(ch *kernel.Chooser) string {
 	w := tw.w
 	g := tw.pick(ch, false)
@@ -673,7 +694,7 @@ func (tw *tokenWorld) endSession(ch *kernel.Chooser) string {
 		// afterwards the session's tokens are dead everywhere
 		for _, x := range append([]*grantedToken(nil), tw.pool...) {
 			if x.client == g.client && x.subject == g.subject {
-				if tw.isLive(x, "access") || (x.refresh != "" && tw.isLive(x, "refresh")) {
+				if tw.usableAccess(x) || (x.refresh != "" && tw.isLive(x, "refresh")) {
 					tw.viol("C08", "logout-ineffective", "end_session", "%s: tokens of the terminated session are still live", desc)
 				}
 				tw.retire(x)
